@@ -140,8 +140,8 @@ Definition e_divzero := Eval vm_compute in b "integer divide by zero".
 Definition e_range := Eval vm_compute in b "range step".
 Definition e_plural := Eval vm_compute in b "plural".
 Definition e_placeholder := Eval vm_compute in b "placeholder".
-Definition s_index := Eval vm_compute in b "__index".
-Definition s_lastindex := Eval vm_compute in b "__lastIndex".
+Definition s_index := Eval vm_compute in b ".index".
+Definition s_lastindex := Eval vm_compute in b ".lastIndex".
 Definition s_ij := Eval vm_compute in b "ij".
 Definition s_dash := Eval vm_compute in b "-".
 
